@@ -668,9 +668,9 @@ def run(eng, rep):
     A = anchors(eng)
     if not rule_single_sink(eng, rep, A):
         return
-    rule_guard_incr_call(eng, rep, A)
-    rule_entry_obligation(eng, rep, A)
+    rep.guarded(rule_guard_incr_call, eng, rep, A)
+    rep.guarded(rule_entry_obligation, eng, rep, A)
     nfw, nxw = rule_counter_plumbing(eng, rep, A)
-    rule_stale_locals(eng, rep, A, nfw, nxw)
-    rule_point_numbering(eng, rep, A)
-    rule_sample_count(eng, rep, A)
+    rep.guarded(rule_stale_locals, eng, rep, A, nfw, nxw)
+    rep.guarded(rule_point_numbering, eng, rep, A)
+    rep.guarded(rule_sample_count, eng, rep, A)
